@@ -43,7 +43,7 @@ WireC == [compress |-> TRUE, decode |-> FALSE, max |-> 0]
 \* framing only: the deflate payload is opaque here (the round trip is judged in phase 3)
 \* (its `out` is the last 4 bytes of the compressed payload, for the tail rule of RFC 7692 7.2.1)
 DummyInfl(k, full) == [has |-> TRUE, inp |-> full \o DeflateTail, ok |-> TRUE, outlen |-> 0,
-                       utf8 |-> TRUE,
+                       utf8 |-> TRUE, full |-> TRUE,
                        out |-> SubSeq(full, IF Len(full) > 4 THEN Len(full) - 3 ELSE 1, Len(full))]
 
 TInit ==
